@@ -1,8 +1,8 @@
 // Package c15 enumerates signer configurations x call chains x positions and
 // compares System.Runtime.CheckWitness executed inside deployed probe
-// contracts, dynamic scripts, the entry script and the native GAS contract
-// with an independent reference evaluator of the witness scope rules
-// (property C15).
+// contracts, dynamic scripts, the entry script, the native GAS contract and
+// oracle callbacks (two-transaction flows in blocks, oracle_test.go) with an
+// independent reference evaluator of the witness scope rules (property C15).
 package c15
 
 import (
@@ -55,15 +55,22 @@ type covKey struct {
 	tclass  int8
 	clause  int8
 	want    bool
+	ctx     int8 // index into ctxNames
 }
 
-var frameNames = []string{"-", "entry", "A", "B", "C", "D", "GAS", "vscript"}
+// ctxNames: how the invocation the cell belongs to was run. 0 = a test
+// invocation (everything but the oracle flows); 1 = the oracle callback's
+// invocation inside a block (entry = the response script, signers in force =
+// those of the request transaction); 2 = the request transaction inside a block.
+var ctxNames = []string{"", "in-oracle-callback", "in-block-transaction"}
+
+var frameNames = []string{"-", "entry", "A", "B", "C", "D", "GAS", "vscript", "Oracle", "oracle-response-script"}
 var frameKinds = []string{"entry", "probe", "dyn", "native"}
 var mutRel = []string{"", "current-contract-changed-its-groups", "calling-contract-changed-its-groups", "other-contract-changed-its-groups"}
 
 var phases = []string{"pre", "post", "native-transfer", "payment-from", "verify"}
 var clauses = []string{"self-call", "global", "called-by-entry", "custom-contracts", "custom-groups", "rule-allow", "rule-deny", "no-match", "non-signer"}
-var tclasses = []string{"signer", "signer-pubkey", "contract", "stranger", "decoy-global", "decoy-none", "unsigned-account", "payment-from", "zero-account", "ones-account"}
+var tclasses = []string{"signer", "signer-pubkey", "contract", "stranger", "decoy-global", "decoy-none", "unsigned-account", "payment-from", "zero-account", "ones-account", "oracle-nodes-account", "oracle-contract"}
 
 func idxOf(list []string, s string) int8 {
 	for i, x := range list {
@@ -102,9 +109,10 @@ func (l *local) shapeID(s string) int32 {
 }
 
 type harness struct {
-	w      *world
-	run    *ev.Run
-	chains []chainSpec
+	w             *world
+	run           *ev.Run
+	chains        []chainSpec
+	oracleSampled bool
 }
 
 // gstate is the group membership in force after some frames changed theirs:
@@ -355,6 +363,11 @@ func (d *decoder) frame(it stackitem.Item, pos int, p int, own int8, rest []sym,
 			return
 		}
 		d.frame(na[0], pos+2, d.h.w.probeIdx(rest[1]), muts[1], rest[2:], muts[2:])
+	case rest[0] == 'O':
+		// The request was filed; what follows runs in the response transaction.
+		if _, isNull := arr[1].(stackitem.Null); !isNull {
+			d.fail("requesting frame at pos %d has a sub-result", pos)
+		}
 	case rest[0] == 'D':
 		d.frame(arr[1], pos+1, -1, mutNone, rest[1:], muts[1:])
 	default:
@@ -365,6 +378,10 @@ func (d *decoder) frame(it stackitem.Item, pos int, p int, own int8, rest []sym,
 func chainName(c chainSpec) string {
 	n := []string{"e", "verification-script", "verify-method-of"}[c.mode]
 	for i, s := range c.syms {
+		if s == 'O' {
+			n += ">Oracle.request || response-script>Oracle.finish>callback-of-the-requester"
+			continue
+		}
 		n += ">" + string(rune(s))
 		switch {
 		case c.muts[i] == mutDestroy:
@@ -442,6 +459,11 @@ func (h *harness) runCase(l *local, cfg *sconfig, chain chainSpec, faultNotPassi
 			"the probe chain did not halt with a well-formed result: "+fault, h.witness(cfg, chain, frames, script, nil, false, ""))
 		return
 	}
+	h.judge(l, cfg, chain, caseID, frames, states, script, cells, 0)
+}
+
+// judge compares every cell of one invocation with the reference and counts it.
+func (h *harness) judge(l *local, cfg *sconfig, chain chainSpec, caseID string, frames []frame, states []gstate, script []byte, cells []cell, ctx int8) {
 	sid := l.shapeID(cfg.part + "|" + cfg.shape)
 	for i := range cells {
 		c := &cells[i]
@@ -453,7 +475,7 @@ func (h *harness) runCase(l *local, cfg *sconfig, chain chainSpec, faultNotPassi
 		cl := idxOf(clauses, clause)
 		mr := mutRelation(frames, states[c.state], c.pos)
 		l.byMut[mr]++
-		k := covKey{mut: mr, shape: sid, cur: idxOf(frameNames, frames[c.pos].name), cbe: c.pos <= 1, tclass: idxOf(tclasses, tc), clause: cl, want: want}
+		k := covKey{mut: mr, shape: sid, cur: idxOf(frameNames, frames[c.pos].name), cbe: c.pos <= 1, tclass: idxOf(tclasses, tc), clause: cl, want: want, ctx: ctx}
 		if c.pos > 0 {
 			k.calling = idxOf(frameNames, frames[c.pos-1].name)
 		}
@@ -464,6 +486,20 @@ func (h *harness) runCase(l *local, cfg *sconfig, chain chainSpec, faultNotPassi
 		l.byKind[idxOf(frameKinds, frames[c.pos].kind)]++
 		l.byClause[cl]++
 		l.byPhase[idxOf(phases, c.phase)]++
+		if ctx != 0 {
+			l.obs["cells_"+ctxNames[ctx]]++
+			if want {
+				l.obs["cells_"+ctxNames[ctx]+"_want_true"]++
+			}
+		}
+		if ctx == 1 {
+			l.obs["oracle_callback_clause_"+clause]++
+			if c.pos == 2 {
+				l.obs["oracle_callback_cells_at_the_callback_frame"]++
+			} else {
+				l.obs["oracle_callback_cells_at_relayed_frames"]++
+			}
+		}
 		if want {
 			l.byWant[1]++
 		} else {
@@ -474,7 +510,7 @@ func (h *harness) runCase(l *local, cfg *sconfig, chain chainSpec, faultNotPassi
 			// with the hash argument (the cell just before) agrees with the reference.
 			keyedOnly := c.target > 0 && len(cfg.targets[c.target]) != 20 && i > 0 && cells[i-1].hash == c.hash &&
 				cells[i-1].pos == c.pos && cells[i-1].phase == c.phase && cells[i-1].got == want
-			h.report(cfg, chain, caseID, frames, states, script, c, want, clause, keyedOnly)
+			h.report(cfg, chain, caseID, frames, states, script, c, want, clause, keyedOnly, ctx)
 		}
 	}
 }
@@ -596,7 +632,7 @@ func (h *harness) minimalCond(cfg *sconfig, chain chainSpec, c *cell, clause str
 // break which flips millions of cells costs one minimisation per shape.
 var sigCache sync.Map
 
-func (h *harness) report(cfg *sconfig, chain chainSpec, caseID string, frames []frame, states []gstate, script []byte, c *cell, want bool, clause string, keyedOnly bool) {
+func (h *harness) report(cfg *sconfig, chain chainSpec, caseID string, frames []frame, states []gstate, script []byte, c *cell, want bool, clause string, keyedOnly bool, ctx int8) {
 	sig := fmt.Sprintf("cell:%s:want=%v", clause, want)
 	if c.phase == "native-transfer" || c.phase == "payment-from" {
 		sig += ":in-native-transfer"
@@ -607,13 +643,20 @@ func (h *harness) report(cfg *sconfig, chain chainSpec, caseID string, frames []
 	if clause == "non-signer" && c.hash == (util.Uint160{}) {
 		sig += ":zero-account-argument"
 	}
+	if ctx != 0 {
+		sig += ":" + ctxNames[ctx]
+	}
 	mr := mutRelation(frames, states[c.state], c.pos)
 	key := sig + "|" + cfg.part + "|" + cfg.shape + "|" + mutRel[mr]
 	if v, ok := sigCache.Load(key); ok {
 		h.run.Violation(v.(string), caseID, "", nil) // counted under the signature already witnessed
 		return
 	}
-	minKind, minCond := h.minimalCond(cfg, chain, c, clause)
+	var minKind string
+	var minCond cond
+	if ctx == 0 { // the minimisation re-runs test invocations; a block flow is reported as it is
+		minKind, minCond = h.minimalCond(cfg, chain, c, clause)
+	}
 	if minKind != "" {
 		sig = "cell:condition=" + minKind // one mis-evaluated condition kind = one signature, whatever the verdict
 	}
@@ -630,7 +673,16 @@ func (h *harness) report(cfg *sconfig, chain chainSpec, caseID string, frames []
 		b, _ := json.Marshal(minCond)
 		detail += "; smallest sub-condition already evaluated differently: " + string(b)
 	}
-	h.run.Violation(sig, caseID, detail, h.witness(cfg, chain, framesAt(frames, states[c.state]), script, c, want, clause))
+	wit := h.witness(cfg, chain, framesAt(frames, states[c.state]), script, c, want, clause)
+	switch ctx {
+	case 1:
+		detail += "; the check ran inside the oracle callback (response transaction in a block): the signers in force are those of the request transaction, frame 0 is the response script, frame 1 the native Oracle contract, frame 2 the callback"
+		wit["context"] = "oracle callback; signers = signers of the request transaction; frames = invocation of the response transaction; entry_script = script of the request transaction"
+	case 2:
+		detail += "; the check ran in the request transaction executed in a block"
+		wit["context"] = "request transaction executed in a block"
+	}
+	h.run.Violation(sig, caseID, detail, wit)
 	sigCache.Store(key, sig) // only after the witnessed report exists
 }
 
@@ -695,12 +747,15 @@ func TestCheck(t *testing.T) {
 		"evaluation context (current frame, calling frame, entry relation) x target class x deciding clause x verdict x relation to an earlier group change; "+
 		"non-trivial = the target is a signer whose scopes were evaluated or the calling contract itself (cells of accounts "+
 		"that did not sign are counted as evaluations only). Part matcher: one case = one (condition tree, stub context) "+
-		"evaluation of WitnessCondition.Match; distinct = root kind x depth x context x verdict")
+		"evaluation of WitnessCondition.Match; distinct = root kind x depth x context x verdict. Part oracle: one case = one two-transaction flow in blocks "+
+		"(request transaction with the configuration whose chain ends in a probe filing Oracle.request; oracle response transaction whose Oracle.finish calls the probe's callback, which relays on); "+
+		"every CheckWitness of the callback and the frames below it is one cell compared with the reference over the request transaction's signers (signature suffix in-oracle-callback)")
 	defer run.Finish()
 	run.Assume("the reference evaluator (ref_test.go, written from the protocol text) is right; it reads only data fields of neo-go's Signer/condition types")
 	run.Assume("frames are known by construction: the harness builds every script, Hash160 and the contract hash/manifest group deployment are trusted")
 	run.Assume("probe contracts are compiled by neo-go's compiler and report CheckWitness results faithfully through return values / one notification")
 	run.Assume("signers are installed after a round trip through Signer.EncodeBinary/DecodeBinary; test invocations (GetTestVM) evaluate witnesses as block execution does")
+	run.Assume("oracle flows: the chain accepts blocks without verifying their transactions (VerifyTransactions off, as the shipped main-net configuration), so request transactions carry dummy witnesses; the response transaction is signed by the designated node's key and accepted by Blockchain.VerifyTx")
 
 	w := newWorld(t)
 	h := &harness{w: w, run: run}
@@ -806,6 +861,12 @@ func TestCheck(t *testing.T) {
 	if part == "" || part == "all" || part == "matcher" {
 		h.runMatcher(d2)
 	}
+	// The oracle flows add blocks to the chain: they run before any test invocation starts.
+	var oracleLocal *local
+	if part == "" || part == "all" || part == "oracle" {
+		oracleLocal = newLocal()
+		h.runOracle(t, oracleLocal, validScopes)
+	}
 	if p := part; p != "" && p != "all" {
 		var keep []job
 		for _, j := range jobs {
@@ -864,6 +925,9 @@ func TestCheck(t *testing.T) {
 		}()
 	}
 	wg.Wait()
+	if oracleLocal != nil {
+		locals = append(locals, oracleLocal)
+	}
 	if part == "" || part == "all" || part == "nosigners" {
 		l := newLocal()
 		locals = append(locals, l)
@@ -914,6 +978,9 @@ func TestCheck(t *testing.T) {
 		cl := clauses[k.k.clause]
 		nontrivial := cl != "non-signer"
 		sig := fmt.Sprintf("%s|cur=%s|calling=%s|byentry=%v|%s|%s|%v|%s", k.shape, frameNames[k.k.cur], frameNames[k.k.calling], k.k.cbe, tc, cl, k.k.want, mutRel[k.k.mut])
+		if k.k.ctx != 0 {
+			sig += "|" + ctxNames[k.k.ctx]
+		}
 		run.CaseN(sig, nontrivial, v)
 	}
 	run.Obs("chains_basic", int64(len(basic)))
@@ -961,6 +1028,9 @@ func TestCheck(t *testing.T) {
 		} else {
 			sampled = append(sampled, fmt.Sprintf("%s(%d configs x %d chains)", j.name, j.n, len(j.chains)))
 		}
+	}
+	if oracleLocal != nil {
+		sampled = append(sampled, fmt.Sprintf("oracle(%d two-transaction flows in blocks)", oracleLocal.obs["oracle_flows"]))
 	}
 	sort.Strings(fullParts)
 	run.Note("enumerated_completely", fullParts)
